@@ -19,6 +19,7 @@ func init() {
 
 func C04(c *core.Ctx) {
 	c.Explanation("C04: variants.GetVariantsPair (getNucsPair, getAAsPair, merge/sort/dedup) is interpreted on a bounded family of gapped (reference, query) pairs - every single-site change to A/C/G/T/N/R/gap at every position of a 12-base reference, two changes per codon, every deletion of length 1..3, one and two insertions, both-gap columns - under three annotations (one forward gene, overlapping forward + reverse genes, a joined gene), against an independent specification: the set of positions mentioned as nuc: records or inside aa: records' SNP lists equals the set of positions whose base sets are disjoint (none dropped, none invented), and the aa: records are exactly the codons whose query translation is unambiguous and differs from the reference's under the standard code on the feature's strand. The codon dictionary is checked as in C17. Position coverage: for GenBank and GFF annotations (named, unnamed, overlapping, joined, reverse) every reference position is in the intergenic list or in the position list of a region that is scanned.")
+	c13Variants(c) // in aggregate mode (with --append-snps) every reported position is still mentioned
 	c02Rows(c) // sam variants reads the rows blockToPairwiseAlignment builds
 	checkArrivalOrderIndependence(c, "R7/reorder", "variants.WriteVariants")
 	checkSoftGapReaders(c, "R6", "pkg/variants", "pkg/sam", "pkg/gff", "pkg/genbank")
@@ -288,6 +289,9 @@ func annoCases(c *core.Ctx) []annoCase {
 		{name: "a reverse and a forward gene whose GFF rows carry no ID",
 			gff: []*eval.StructVal{mkGFFFeature(c, "CDS", 4, 12, "-", 0, A("Name", "g1")), mkGFFFeature(c, "CDS", 13, 21, "+", 0, A("Name", "g2"))},
 			gb:  []gbFeature{{"CDS", "complement(4..12)", "g1", 1}, {"CDS", "13..21", "g2", 1}}},
+		{name: "two CDS that share a gene name, the second in another frame",
+			gff: []*eval.StructVal{mkGFFFeature(c, "CDS", 1, 9, "+", 0, A("ID", "c1", "Name", "g1")), mkGFFFeature(c, "CDS", 5, 16, "+", 0, A("ID", "c2", "Name", "g1"))},
+			gb:  []gbFeature{{"CDS", "1..9", "g1", 1}, {"CDS", "5..16", "g1", 1}}},
 		{name: "partial gene starting in frame 2",
 			gff: []*eval.StructVal{mkGFFFeature(c, "CDS", 3, 12, "+", 1, A("ID", "c1", "Name", "g1"))},
 			gb:  []gbFeature{{"CDS", "3..12", "g1", 2}}},
@@ -580,6 +584,8 @@ func gapLiterals(c *core.Ctx) []gapLit {
 
 func C11(c *core.Ctx) {
 	c.Explanation("C11: agreement by construction plus agreement on a bounded family: the SAM-path worker getVariantsSam (text rows, encoded in the worker) and the FASTA-path worker getVariants (encoded record, offsets from GetMSAOffsets as variants.Variants computes them) are interpreted on the same gapped pairs and annotations as C04/C05 and must emit identical mutation lists, names and indices; both paths call GetVariantsPair; sam variants obtains its rows from the function toPairAlign writes from (blockToPairwiseAlignment with insertions kept); both entry points hand results to the same two writers.")
+	c15Stdin(c) // toPairAlign -o stdout | variants reads the pair from a stream: the same table as from a file
+	c16Structural(c) // the FASTA form is read back by the same readers, with the same line limit in each
 	c02Rows(c) // sam variants reads the rows blockToPairwiseAlignment builds
 	checkArrivalOrderIndependence(c, "R8/reorder", "sam.writePairwiseAlignment") // the pair written is the pair of that query, whatever arrives meanwhile
 	checkCigarTables(c, "R7", func(t cigarTable) bool { return true })           // the toMultiAlign row and the toPairAlign pair come from tables that agree with the SAM specification
